@@ -375,7 +375,7 @@ Definition accepts (o : op) (s : st) : bool :=
                && negb (orev o =? cur s) && active s && mem (orev o) (seq s)
   | ORemove => installed s
   | ORemoveRev => installed s && negb (active s && (orev o =? cur s)) && mem (orev o) (seq s)
-  | OEnable => installed s && negb (active s)
+  | OEnable => installed s && negb (active s) && (orev o =? cur s)   (* Enable builds the snap-setup from CurrentSideInfo *)
   | ODisable => installed s && active s
   | OSetCfg | OInhibit => installed s
   | ORetain => true    (* a change of the refresh.retain setting: no effect on the snap *)
